@@ -80,6 +80,32 @@ func genFile(r *mrand.Rand, canonOnly bool) gen.FileSpec {
 	return f
 }
 
+// shareReadSeeker: two files of the message (if it has two) become the same content behind ONE io.ReadSeeker of the
+// caller's - the same image embedded inline and attached as download.
+func shareReadSeeker(r *mrand.Rand, s *gen.MsgSpec) bool {
+	var fs []*gen.FileSpec
+	for i := range s.Embeds {
+		fs = append(fs, &s.Embeds[i])
+	}
+	for i := range s.Attach {
+		fs = append(fs, &s.Attach[i])
+	}
+	if len(fs) < 2 {
+		return false
+	}
+	a := r.Intn(len(fs))
+	b := (a + 1 + r.Intn(len(fs)-1)) % len(fs)
+	fs[a].Source, fs[a].Chunk = "readseeker-shared", 0
+	fs[b].Source, fs[b].Chunk = "readseeker-shared", 0
+	fs[b].Content = fs[a].Content
+	if r.Intn(3) == 0 {
+		for _, f := range fs { // every file of the message is that one reader
+			f.Source, f.Chunk, f.Content = "readseeker-shared", 0, fs[a].Content
+		}
+	}
+	return true
+}
+
 func stripLoneCR(b []byte) []byte {
 	var out []byte
 	for i, c := range b {
@@ -682,7 +708,7 @@ func runC01(r *ev.Run, rep *ev.ReplayDoc) ev.Summary {
 	env := &gen.Env{}
 	defer env.Cleanup()
 	sum := ev.Summary{
-		Rule: "seeded message specs (0-4 body parts x 0-3 embeds x 0-3 attachments, message/part/file encodings, content byte-string classes, all file sources, caller-defined boundaries of every length and character class; a share of the messages edited after assembly - files re-ordered / removed / added, parts deleted, replaced or given new content - or rendered before, completely or into a failing destination) rendered with Msg.WriteTo and decoded by the harness' own MIME reader, cross-checked with net/mail+mime/multipart; thorough additionally enumerates every shape (parts 0-3 x embeds 0-2 x attach 0-2) x message encoding. non-trivial = >=2 leaves or non-plain content; distinct by (encodings, sources, content classes) signature",
+		Rule: "seeded message specs (0-4 body parts x 0-3 embeds x 0-3 attachments, message/part/file encodings, content byte-string classes, all file sources (also ONE io.ReadSeeker of the caller behind several files of a message), caller-defined boundaries of every length and character class; a share of the messages edited after assembly - files re-ordered / removed / added, parts deleted, replaced or given new content - or rendered before, completely or into a failing destination) rendered with Msg.WriteTo and decoded by the harness' own MIME reader, cross-checked with net/mail+mime/multipart; thorough additionally enumerates every shape (parts 0-3 x embeds 0-2 x attach 0-2) x message encoding. non-trivial = >=2 leaves or non-plain content; distinct by (encodings, sources, content classes) signature",
 		Assumptions: []string{
 			"the harness MIME reader (internal/mimeread) implements RFC 2045/2046/2047 correctly; it is cross-checked against the Go stdlib readers on every message",
 			"expected media type of files without explicit type comes from the same mime.TypeByExtension table the process uses",
@@ -743,6 +769,9 @@ func runC01(r *ev.Run, rep *ev.ReplayDoc) ev.Summary {
 				np = 1
 			}
 			s = genSpec(rng, fmt.Sprintf("c01-r%d", i), "", np, ne, na)
+		}
+		if i >= enumN && i%9 == 4 && shareReadSeeker(rng, &s) {
+			r.Count("messages_with_one_readseeker_behind_several_files", 1)
 		}
 		c := c01Case{Spec: s}
 		if i >= enumN && rng.Intn(5) == 0 {
